@@ -11,6 +11,8 @@ evaluation may be scripted (the hook) as long as, for undirected graphs, it does
 slot the undirected code never uses — the real evaluation qualifies (`code_factorize`).
 -/
 import MTProps.C15
+import MTProps.C12
+import MTProps.C11
 import MTProps.CodeGraph
 import MTProps.CodeRun
 
@@ -213,6 +215,40 @@ theorem code_factorize (inp : Input β ω α) (d : Nat → α) (dflt : β) :
         | .ok o => .ok (o.labels, o.u, o.v, o.affinity, o.report.iters, o.report.reasons.map Reason.code, o.report.L2s) :=
   mainCode_eq inp d dflt _ (fun hf assort K i it s v' =>
     MTProps.CodeRun.stateLik_ignores_v assort K _ (by simp [Net.view, build, hf]) s v')
+
+/-! ### properties restated on the code as written (corollaries through `code_factorize`) -/
+
+/-- what `mainCode` returns for a model result -/
+def shown (r : Except Err (Output β α)) :
+    Except String (List β × Tens α × Tens α × Array α × List Nat × List Nat × List α) :=
+  match r with
+  | .error e => .error (Err.message e)
+  | .ok o => .ok (o.labels, o.u, o.v, o.affinity, o.report.iters, o.report.reasons.map Reason.code, o.report.L2s)
+
+/-- **C12 on the code**: `multitensor_factorization` as written, run on injectively relabelled records, returns the
+same numbers and report, its rows carrying the new labels — for every scalar type (`Float`: bit-identical) -/
+theorem code_relabel {γ : Type} [DecidableEq γ] (f : β → γ) (hf : Function.Injective f)
+    (inp : Input β ω α) (d : Nat → α) (dflt : β) (dflt' : γ) :
+    mainCode inp.directed inp.assort inp.ik (inp.starts.map f) (inp.ends.map f) inp.weights dflt' inp.r inp.maxIt inp.nConv
+        inp.priorU inp.priorV inp.affinity (fun assort K nv _ _ s => stateLik assort K nv s) d
+      = (mainCode inp.directed inp.assort inp.ik inp.starts inp.ends inp.weights dflt inp.r inp.maxIt inp.nConv
+          inp.priorU inp.priorV inp.affinity (fun assort K nv _ _ s => stateLik assort K nv s) d).map
+        (fun t => (t.1.map f, t.2)) := by
+  have h1 := code_factorize ({ inp with starts := inp.starts.map f, ends := inp.ends.map f } : Input γ ω α) d dflt'
+  have h2 := code_factorize inp d dflt
+  simp only [] at h1
+  rw [h1, h2, MTProps.C12.relabel_factorize f hf inp d]
+  cases factorize inp d <;> rfl
+
+/-- **C15 on the code**: a configuration the documented predicate rejects makes `multitensor_factorization` as
+written return the check's error — nothing else of the function is evaluated, so no output argument can have
+been touched -/
+theorem code_reject (inp : Input β ω α) (d : Nat → α) (dflt : β) (e : Err)
+    (h : validate inp.shapes = .error e) :
+    mainCode inp.directed inp.assort inp.ik inp.starts inp.ends inp.weights dflt inp.r inp.maxIt inp.nConv
+        inp.priorU inp.priorV inp.affinity (fun assort K nv _ _ s => stateLik assort K nv s) d
+      = .error (Err.message e) := by
+  rw [code_factorize inp d dflt, MTProps.C15.reject_leaves_outputs inp d e h]
 
 end
 end MTProps.CodeMain
